@@ -70,8 +70,12 @@ Proof.
   assert (NOCH : forall o ops', fops f = o :: ops' -> is_chan_op o = true -> False).
   { intros o ops' E C. rewrite E in TOP. apply head_tail in TOP. destruct TOP as [HD _].
     destruct (under f rest); destruct o; simpl in *; discriminate. }
+  assert (NOBL : forall o ops', fops f = o :: ops' -> (match o with OBlock _ _ _ | OExit _ _ => true | _ => false end) = true -> False).
+  { intros o ops' E C. rewrite E in TOP. apply head_tail in TOP. destruct TOP as [HD _].
+    destruct (under f rest); destruct o; simpl in *; discriminate. }
   inversion S; subst;
-    try (exfalso; eapply NOCH; [eassumption | reflexivity]).
+    try (exfalso; eapply NOCH; [eassumption | reflexivity]);
+    try (exfalso; eapply NOBL; [eassumption | reflexivity]).
   - eapply (GEN _ (U _)); simpl; auto. apply SF.
   - eapply (GEN _ (U _)); simpl; auto. apply SF. apply upd_length.
   - eapply (GEN _ (U _)); simpl; auto. apply SF.
@@ -92,6 +96,11 @@ Proof.
     split; [eapply ADV; eauto |].
     change (is_lock (mkF (fk f) ops') || existsb is_lock rest) with (under f rest).
     destruct (under f rest); exact HD.
+  - (* block frames and exit markers do not occur in flat programs; the steps keep the invariant anyway *)
+    eapply (GEN _ (U _)); simpl; auto. apply SF.
+  - eapply (GEN _ (U _)); simpl; auto. apply SF.
+  - eapply (GEN _ (U _)); simpl; auto. apply SF. apply upd_length.
+  - eapply (GEN _ (U _)); simpl; auto. rewrite ST. exact SF.
 Qed.
 
 Theorem flat_inv_reach : forall p s, nm = p_nmutex p -> nx = length (p_mem p) -> flat p = true -> reach p s -> flat_inv s.
@@ -113,6 +122,14 @@ Proof.
   rewrite E in C. auto.
 Qed.
 
+(* a routine whose exit marker is travelling can always move *)
+Lemma marker_moves : forall s j r g b e, nth_error (rs s) j = Some r -> parked s j = false -> stk r = g :: b ->
+  unw r = false -> ext r = Some e -> exists s', step s j 0 = Some s'.
+Proof.
+  intros s j r g b [tb bb] R P ST U E. unfold step. rewrite R, P, ST, U, E.
+  destruct (fk g) as [| m | | [] b']; destruct tb; destruct (fops g); eauto.
+Qed.
+
 (* a routine whose top frame runs lock-free code can always move *)
 Lemma lockfree_moves : forall s j r g b, flat_inv s -> nth_error (rs s) j = Some r -> stk r = g :: b ->
   lockfree_ops nm nx (fops g) = true -> exists s', step s j 0 = Some s'.
@@ -122,9 +139,11 @@ Proof.
   { unfold parked. apply not_true_is_false. intro E. apply existsb_exists in E. destruct E as (ch & IN & E).
     apply In_nth_error in IN. destruct IN as (c & IN). unfold parked_in in E. rewrite (QU _ _ IN) in E.
     destruct (cap ch); simpl in E; discriminate. }
-  rewrite P, ST. destruct (unw r).
+  rewrite P, ST. destruct (unw r) eqn:UW.
   - destruct (fk g); eauto.
-  - destruct (fops g) as [|o ops] eqn:O.
+  - destruct (ext r) as [e|] eqn:EX.
+    { destruct (marker_moves s j r g b e R P ST UW EX) as (s' & M). unfold step in M. rewrite R, P, ST, UW, EX in M. eauto. }
+    destruct (fops g) as [|o ops] eqn:O.
     + destruct (fk g); eauto.
     + simpl in LF. apply andb_true_iff in LF. destruct LF as [HD _]. unfold exec.
       destruct o; simpl in HD; try discriminate; eauto.
@@ -158,15 +177,17 @@ Proof.
     assert (TOP := stack_top _ _ _ _ SF). unfold under in TOP. rewrite UL in TOP.
     destruct (unw r) eqn:UW.
     { exists i. unfold step. rewrite R, P, ST, UW. destruct (fk g); eauto. }
+    destruct (ext r) as [e|] eqn:EX.
+    { exists i. eapply marker_moves; eauto. }
     destruct (fops g) as [|o ops] eqn:O.
-    { exists i. unfold step. rewrite R, P, ST, UW, O. destruct (fk g); eauto. }
+    { exists i. unfold step. rewrite R, P, ST, UW, EX, O. destruct (fk g); eauto. }
     apply (head_tail nm nx false) in TOP. destruct TOP as [HD _].
     destruct o; simpl in HD; try discriminate.
-    + exists i. unfold step. rewrite R, P, ST, UW, O. unfold exec.
+    + exists i. unfold step. rewrite R, P, ST, UW, EX, O. unfold exec.
       apply Nat.ltb_lt in HD. rewrite <- ME in HD. apply nth_error_Some in HD. destruct (nth_error (mem s) x); [eauto | congruence].
-    + exists i. unfold step. rewrite R, P, ST, UW, O. unfold exec.
+    + exists i. unfold step. rewrite R, P, ST, UW, EX, O. unfold exec.
       apply Nat.ltb_lt in HD. rewrite <- ME in HD. apply nth_error_Some in HD. destruct (nth_error (mem s) x); [eauto | congruence].
-    + exists i. unfold step. rewrite R, P, ST, UW, O. unfold exec. eauto.
+    + exists i. unfold step. rewrite R, P, ST, UW, EX, O. unfold exec. eauto.
     + apply andb_true_iff in HD. destruct HD as [A _]. apply Nat.ltb_lt in A. rewrite <- MU in A. apply nth_error_Some in A.
       destruct (nth_error (mus s) m) as [[j|]|] eqn:M; try congruence.
       * (* held by j: j is inside the body, whose code is lock-free *)
@@ -174,8 +195,8 @@ Proof.
         assert (SJ : stack_flat nm nx (stk rj)) by eauto.
         destruct (inside_top_lockfree _ _ _ _ SJ IN) as (gj & bj & EJ & LF).
         exists j. eapply lockfree_moves; eauto. split; auto.
-      * exists i. unfold step. rewrite R, P, ST, UW, O. unfold exec. rewrite M. eauto.
-    + exists i. unfold step. rewrite R, P, ST, UW, O. unfold exec. eauto.
+      * exists i. unfold step. rewrite R, P, ST, UW, EX, O. unfold exec. rewrite M. eauto.
+    + exists i. unfold step. rewrite R, P, ST, UW, EX, O. unfold exec. eauto.
 Qed.
 
 (* the statement: nothing can move only when everything has finished *)
